@@ -585,7 +585,7 @@ func c08R5(c *Ctx) {
 	if ao != nil {
 		inLit := 0
 		for _, cs := range p.CallsIn(ao) {
-			if cs.Lit != nil && cs.Callee != nil && (cs.Callee.Name() == "createENI" || cs.Callee.Name() == "assignIP") {
+			if cs.Lit != nil && cs.Callee != nil && (fnName(cs.Callee) == "createENI" || fnName(cs.Callee) == "assignIP") {
 				inLit++
 			}
 		}
